@@ -14,6 +14,7 @@ stateful protocol (one object at a time):
   eval <x>                        -> bits                          (spectrum(x))
   geom                            -> n z0 h r … | ValueError       (generate_geometry)
   notified                        -> count of notifier.notify() calls
+  dup ; swap                      -> ok   (second object slot: copy of the current object / exchange the two)
 stateless:
   erf <x> ; seg <r> <L> ; pow c|d|g <lo> <hi> <n> [<mean> <stddev>] ; specc <lo> <hi> <n> ; specg <lo> <hi> <n> <mean> <stddev>
 -/
@@ -83,7 +84,7 @@ def argMap : List String → String → Float
   | k :: v :: rest, a => if k == a then pF v else argMap rest a
   | _, _ => 0.0
 
-def step (st : St) (ts : List String) : St × String :=
+def step1 (st : St) (ts : List String) : St × String :=
   match ts with
   | "new" :: cls :: kv =>
     match Cherab.Gen.LaserEdges.classes.find? (fun t => t.name == cls) with
@@ -137,6 +138,14 @@ def step (st : St) (ts : List String) : St × String :=
       | ["notified"] => (st, toString o.notified)
       | _ => (st, "bad-op")
 
+/-- two object slots (current, other): `dup` copies the current object into the other slot (in the model an object is a
+value, so a copy / deepcopy / pickle round trip is the same value and later assignments cannot alias), `swap` exchanges -/
+def step (st : St × St) (ts : List String) : (St × St) × String :=
+  match ts with
+  | ["dup"] => ((st.1, st.1), "ok")
+  | ["swap"] => ((st.2, st.1), "ok")
+  | _ => let (s', o) := step1 st.1 ts; ((s', st.2), o)
+
 def main : IO UInt32 := do
-  loop step (← IO.getStdin) (← IO.getStdout) (none : St)
+  loop step (← IO.getStdin) (← IO.getStdout) ((none, none) : St × St)
   return 0
